@@ -1,19 +1,22 @@
 #!/bin/bash
 # usage: scripts/try_refactor.sh <dir with patch.diff>
-# Applies a behaviour-preserving refactoring to /repo, runs EVERY check (quick, 6 at a time)
-# and reports any VIOLATION / ANALYSIS-ERROR (= false alarm), then restores /repo.
+# Applies a behaviour-preserving refactoring to the repository, runs EVERY check (quick, 6 at
+# a time) and reports any VIOLATION / ANALYSIS-ERROR (= false alarm), then restores the tree.
+# EVAL_REPO (default /repo) may name a scratch worktree; EVAL_BIN the analyser binary.
 d=$(cd "$1" && pwd)
 name=$(basename $d)
+repo=${EVAL_REPO:-/repo}
+bin=${EVAL_BIN:-/verif/bin/comdexlint}
 cd /verif
-if ! git -C /repo apply --check $d/patch.diff 2>/dev/null; then echo "$name PATCH-DOES-NOT-APPLY"; exit 0; fi
-scripts/check C16 quick >/dev/null 2>&1   # make sure the binary is built before going parallel
-git -C /repo apply $d/patch.diff
+if ! git -C $repo apply --check $d/patch.diff 2>/dev/null; then echo "$name PATCH-DOES-NOT-APPLY"; exit 0; fi
+[ "$bin" = /verif/bin/comdexlint ] && scripts/check C16 quick >/dev/null 2>&1   # make sure the binary is built before going parallel
+git -C $repo apply $d/patch.diff
 out=/tmp/refactor-out-$name
 rm -rf $out; mkdir -p $out
 printf "%s\n" C01 C02 C03 C04 C05 C06 C07 C08 C09 C10 C11 C12 C13 C14 C15 C16 C17 C18 C19 C20 | \
-  xargs -P 6 -I{} sh -c "VERIF_EVIDENCE_DIR=/tmp/seed-evidence/{} /verif/bin/comdexlint -verif /verif -repo /repo -prop {} -tier quick > $out/{}.log 2>&1"
-git -C /repo checkout -- .
-git -C /repo clean -fdq x app types 2>/dev/null
+  xargs -P 6 -I{} sh -c "VERIF_EVIDENCE_DIR=/tmp/seed-evidence-$name/{} $bin -verif /verif -repo $repo -prop {} -tier quick > $out/{}.log 2>&1"
+git -C $repo checkout -- .
+git -C $repo clean -fdq x app types 2>/dev/null
 bad=0
 for c in C01 C02 C03 C04 C05 C06 C07 C08 C09 C10 C11 C12 C13 C14 C15 C16 C17 C18 C19 C20; do
   if grep -q "^VIOLATION\|ANALYSIS-ERROR" $out/$c.log; then
@@ -23,4 +26,4 @@ for c in C01 C02 C03 C04 C05 C06 C07 C08 C09 C10 C11 C12 C13 C14 C15 C16 C17 C18
   fi
 done
 [ $bad -eq 0 ] && echo "$name silent on all checks"
-rm -rf $out
+rm -rf $out /tmp/seed-evidence-$name
